@@ -15,8 +15,8 @@ EXTRACTS = ["C03"]
 THEOREMS = [
     "C03_select_sound", "C03_select_newest", "C03_select_newest_configured", "C03_select_best_key",
     "C03_wheel_before_sdist", "C03_wheel_before_sdist_filenames", "C03_binary_only_no_sdist",
-    "C03_prerelease_only_when", "C03_prerelease_declarative_partial", "C03_prerelease_declarative_unbounded",
-    "C03_prerelease_declarative_refuted", "C03_select_complete", "C03_select_live", "C03_fallback_recursion",
+    "C03_prerelease_only_when", "C03_prerelease_declarative", "C03_select_complete", "C03_select_live",
+    "C03_fallback_recursion",
 ]
 RULE = ("candidate sets generated as FILE NAMES (wheels with tags of the running interpreter and foreign ones, build "
         "tags, sdists with 4 extensions, finals/pre/post/dev/epoch/local versions, duplicates, respelled and wrong "
@@ -30,7 +30,8 @@ RULE = ("candidate sets generated as FILE NAMES (wheels with tags of the running
         "unreadable set, requirement, settings).")
 TRUSTED_BASE = [
     "T1 harness/tr_c03.py: sortkey tuple order, DistributionType values, sorted(reverse=), order/shape of the "
-    "check_usability tests, the sdist skip, the budget comparison operator, the fallback condition text, the operators "
+    "check_usability tests, the sdist skip, the budget comparison operator, the fallback condition and its gave_up guard, "
+    "how _impl_major_minor splits a python tag, the operators "
     "of is_pinned_requirement, the sdist extra_sort_info default -> gen/C03Consts.v",
     "T2 harness/c03.py + enc440.py: generators, the in-memory repository, canonicalisation (file name / NC)",
     "the tag verdict (first three tests of check_usability) and Candidate.tag_score are inputs of the model (C20's subject); "
@@ -42,7 +43,6 @@ ASSUMPTIONS = [
     "=== clauses are outside the model (lib/Pep440 has no arbitrary-equality operator)",
     "get_candidates returns a list (a one-shot iterator would be empty in the fallback pass)",
     "resolve_candidate either returns metadata or raises MetadataError (other exceptions propagate and are not modelled)",
-    "known finding C03-prerelease-after-budget: the strict reading of the pre-release clause fails when the first pass is cut by the budget",
 ]
 
 PROJECT = ["foo-bar", "Foo.Bar", "foo_bar", "FOO-BAR", "foo.bar"]
@@ -569,8 +569,8 @@ def oracle(mods, case: Dict[str, Any]) -> Optional[str]:
                 return f"sdist {fname} chosen although wheel {wheels[0].filename} of the same version is readable and eligible"
         if c.version.is_prerelease and not case["allow_pre"] and not pinned:
             finals = [x for x in pool(False) if good(x)]
-            if finals and not cut(pool(False)):
-                return f"pre-release {fname} chosen although final {finals[0].filename} is readable, eligible and within the budget"
+            if finals:
+                return f"pre-release {fname} chosen although final {finals[0].filename} is readable and eligible"
         return None
     # NoCandidate
     first = pool(case["allow_pre"] or bool(pinned_versions))
@@ -584,6 +584,7 @@ def search(ctx: Ctx) -> Optional[Dict[str, Any]]:
     mods = _imports()
     enc440, pkg_resources, Version, R, U, E, C = mods
     suspects = [m["case"] for m in ctx.mismatches if isinstance(m.get("case"), dict) and "files" in m["case"]]
+    suspects += [c for _, c in corpus_cases()]
     rng = ctx.rng
     for _ in range(ctx.n(6000, 60000)):
         suspects.append(gen_case(rng, enc440, Version, pkg_resources))
@@ -615,11 +616,11 @@ def replay_known(ctx: Ctx, entry: Dict[str, Any]) -> Optional[bool]:
     return obs == data["violating_observation"]
 
 
-LEVEL_TEXT = ("Fourteen theorems proved in Coq for all candidate lists, specifiers, settings and unreadable patterns over a Gallina "
+LEVEL_TEXT = ("Twelve theorems proved in Coq for all candidate lists, specifiers, settings and unreadable patterns over a Gallina "
               "model of filter_candidates / sort_candidates / do_get_candidate (stable descending insertion sort on the "
-              "T1-read key, distinct-version budget, fallback pass): soundness, newest-version and best-key optimality, "
-              "wheel before sdist, binary-only, the code's pre-release condition, completeness of NoCandidate, liveness; the "
-              "strict declarative pre-release reading is proved up to the budget and refuted by a replayed witness.")
+              "T1-read key, distinct-version budget, fallback pass guarded by the give-up flag): soundness, newest-version and "
+              "best-key optimality, wheel before sdist, binary-only, the code's pre-release condition and the property's own "
+              "declarative reading of it at full strength, completeness of NoCandidate, liveness.")
 LEVEL_NOTE = ("Trusted: Coq kernel, extraction, OCaml driver, T1 translator, T2 harness; tag verdict and tag_score are inputs "
               "(C20); packaging semantics by sampling (C17); '===' outside the model.")
 TECHNIQUE = "Rocq proof over Gallina model (StronglySorted insertion sort, scan invariants) + extraction-based differential correspondence"
